@@ -155,11 +155,22 @@ def run_world(desc: dict[str, Any], *, scoped: bool = True, capture_logs: bool =
 
     # ---- actor ---------------------------------------------------------------------------
     def apply_actor(op: list[Any]) -> None:
+        nonlocal plural
         kind = op[0]
+        saved = plural
+        if '@' in kind:
+            kind, plural = kind.split('@', 1)
+        try:
+            _apply_actor(kind, op)
+        finally:
+            plural = saved
+
+    def _apply_actor(kind: str, op: list[Any]) -> None:
         if kind == 'create':
             name, body = op[1], op[2]
             if kube.get(plural, ns, name) is None:
-                b = {'apiVersion': 'kopf.dev/v1', 'kind': 'KopfExample'}
+                r = kube.find_resource(plural)
+                b = {'apiVersion': f"{r['group']}/{r['version']}" if r else 'kopf.dev/v1', 'kind': r['kind'] if r else 'KopfExample'}
                 b.update(body)
                 kube.create(plural, ns, name, b)
         elif kind == 'edit':
